@@ -774,7 +774,10 @@ def thread_scenarios(chk, rng, quick_n, thorough_n, with_cancel=True):
 def run(chk):
     drv = vlib.build_drivers(["engine_driver"])["engine_driver"]
     model = vlib.model_bin("handshake")
-    chk.proof_gate()
+    chk.proof_gate(also=["impl"])
+    # small-step model of the engine loop (Engine/Impl.v): exact-interleaving tie, theorems of Props/Properties_impl.v
+    import props.impl as impl
+    impl.phase(chk, {"corpus", "hist"})
     emodel = enginelib.Model()
     root = os.path.join(vlib.WORK, "tmp", "c06-%d" % os.getpid())     # private: checks may run concurrently
     shutil.rmtree(root, ignore_errors=True)
